@@ -14,6 +14,7 @@ type streamCtx struct {
 	rng      *rand.Rand
 	base     int64
 	thorough bool
+	shapeMap map[string]func(v int) *histSpec // every history shape by name (set by histShapes)
 }
 
 var nsOffsets = []int64{0, 1, 999999999}
